@@ -247,7 +247,16 @@ impl RaAdvService {
             options.add_option(icmppkt::NDOptionValue::RecursiveDnsServers((
                 intf.rdnss_lifetime
                     .always_unwrap_or(3 * DEFAULT_MAX_RTR_ADV_INTERVAL),
-                v.clone(),
+                /* $self6 may also be written in the interface's own list of servers */
+                v.iter()
+                    .map(|ip6| {
+                        if *ip6 == std::net::Ipv6Addr::UNSPECIFIED {
+                            self6
+                        } else {
+                            *ip6
+                        }
+                    })
+                    .collect(),
             )))
         }
 
